@@ -126,6 +126,7 @@ type obj struct {
 	mj     matJoint
 	t      *AvlTree
 	ai     *AvlIterator
+	cv     ConstVector // read-only vectors: SparseConst<T>Vector, DenseGradient
 	sparse bool
 	ti     int
 	flavor string // how it was made (evidence / signature)
@@ -246,6 +247,9 @@ func (o *obj) dims() (int, int) {
 		}
 		return 1, n
 	}
+	if o.cv != nil {
+		return 1, o.cv.Dim()
+	}
 	switch o.k {
 	case "v":
 		return 1, o.v.Dim()
@@ -268,6 +272,9 @@ func (o *obj) at(p int) Scalar {
 	}
 }
 func (o *obj) constAt(p int) ConstScalar {
+	if o.cv != nil {
+		return o.cv.ConstAt(p - 1)
+	}
 	switch o.k {
 	case "s":
 		return o.sc
@@ -296,7 +303,7 @@ func asMatrix(ti int, sparse bool, m ConstMatrix) Matrix {
 func (w *world) apply(st step) (res []float64, note string) {
 	o := w.objs[st.S-1]
 	f := w.pick(64)
-	if w.applyExtra(st, f) {
+	if w.applyExtra(st, f) || w.applyConst(st, f) {
 		return
 	}
 	switch st.Op {
@@ -716,6 +723,8 @@ func (o *obj) diff(e *content) (what, detail string) {
 		return "", ""
 	case "v":
 		c = o.v.Dim()
+	case "c", "g":
+		c = o.cv.Dim()
 	case "m":
 		r, c = o.m.Dims()
 	}
@@ -749,8 +758,12 @@ func (o *obj) diff(e *content) (what, detail string) {
 		return ""
 	}
 	n := 0
-	if o.k == "v" {
-		for it := o.v.ConstIterator(); it.Ok(); it.Next() {
+	if o.k == "v" || o.cv != nil {
+		var cv ConstVector = o.cv
+		if o.v != nil {
+			cv = o.v
+		}
+		for it := cv.ConstIterator(); it.Ok(); it.Next() {
 			if d := visit(it.Index(), it.GetConst()); d != "" {
 				return "iteration", d
 			}
@@ -822,7 +835,7 @@ func (w *world) observe() []vh.M {
 func realOnly(c *tcase) bool {
 	for _, st := range c.Steps {
 		switch st.Op {
-		case "der", "vars", "assign":
+		case "der", "vars", "assign", "grad":
 			return true
 		}
 	}
@@ -845,8 +858,10 @@ func sparseDeviation(c *tcase, base bool) bool {
 	for _, st := range c.Steps[1 : n-1] {
 		s := st.S - 1
 		switch st.Op {
-		case "clone", "asSame", "asType", "row", "col":
+		case "clone", "asSame", "asType", "row", "col", "asConst":
 			add(sparse[s], len(group), false, false)
+		case "grad":
+			add(sparse[s], group[s], false, true)
 		case "asFlip":
 			add(!sparse[s], len(group), false, false)
 		case "slice", "mslice", "T":
@@ -922,6 +937,13 @@ func applicable(c *tcase, in inst) string {
 	if c.realOnly && !isReal(in.ti) {
 		return "real-only"
 	}
+	if isReal(in.ti) { // the constant sparse vectors exist for the seven plain element types
+		for _, st := range c.Steps {
+			if st.Op == "asConst" {
+				return "plain-only"
+			}
+		}
+	}
 	if c.taint[b2i(in.sparse)] {
 		return "sparse-unconstrained"
 	}
@@ -950,7 +972,7 @@ func derivChain(c *tcase) string {
 	for _, st := range c.Steps[1:] {
 		switch st.Op {
 		case "clone", "asSame", "asFlip", "asType", "row", "col", "slice", "mslice", "T", "elem", "iter", "itclone",
-			"jiter", "tclone", "titer", "safeiter", "safefrom":
+			"jiter", "tclone", "titer", "safeiter", "safefrom", "asConst", "grad":
 			ops = append(ops, st.Op)
 		}
 	}
@@ -1019,6 +1041,19 @@ func runCase(c *tcase, idx int, in inst, res *result, wd *watch) {
 			return
 		}
 	}
+	// the whole read API of a freshly derived object
+	if isDerive(last.Op) && len(w.objs) == len(c.Exp) {
+		x := len(w.objs) - 1
+		var what, detail string
+		m := vh.Try(func() { what, detail = w.objs[x].deepDiff(&c.Exp[x]) })
+		if m != "" {
+			what, detail = "panic", "read API: "+m
+		}
+		if what != "" {
+			report(what, "result:"+w.objs[x].k+":"+w.objs[x].flavor, detail, x+1)
+			return
+		}
+	}
 	// the share set: storage that objects really have in common vs what the specification allows
 	if isDerive(last.Op) || last.Op == "append" {
 		if a, b, detail := w.shareDiff(c.Share); detail != "" {
@@ -1061,7 +1096,7 @@ func runCase(c *tcase, idx int, in inst, res *result, wd *watch) {
 func isDerive(op string) bool {
 	switch op {
 	case "clone", "asSame", "asFlip", "asType", "row", "col", "slice", "mslice", "T", "elem", "iter", "itclone",
-			"jiter", "tclone", "titer", "safeiter", "safefrom":
+			"jiter", "tclone", "titer", "safeiter", "safefrom", "asConst", "grad":
 		return true
 	}
 	return false
